@@ -392,6 +392,7 @@ fn emit_fn(
         rw.visit_signature_mut(&mut sig);
         rw.visit_block_mut(&mut block);
     }
+    rules::self_mut(selector, cfg, &mut sig, fired);
     rules::mut_self(&mut sig, &mut block, fired);
     rules::unshadow_params(&sig, &mut block, fired);
     // R-chainlet: `a.m1(x).m2(y)` in tail position => `let __c0 = a.m1(x); let __c1 = __c0.m2(y); __c1`
